@@ -65,6 +65,8 @@ def exact_code(ch, addr):
     account's code hash (keccak of the real code) so the length is exact."""
     from eth_utils import keccak
     c = ch.code(addr)
+    if not c:
+        return b""      # account without code (e.g. the init code ended in STOP): nothing was deployed
     if len(c) < 33 or any(c[-33:]):
         raise RuntimeError("unexpected pyrevm code padding")
     c = c[:-33]
@@ -363,6 +365,15 @@ def run(ctx):
             report("failing-input", "module-initialiser constructor: " + pr[0][:160],
                    {"source": c13_ext.MAIN, "lib.vy": c13_ext.LIB, "config": cfg.name, "problems": pr[:6]},
                    key=f"c13:modules:{cfg.name}:{pr[0][:40]}")
+        pr, n_er, sk = c13_ext.early_return_cases(ctx, cfg, rnd, exact_code, selector, compile_src)
+        ext["early_return_deployments"] = ext.get("early_return_deployments", 0) + n_er
+        for k, v in sk.items():
+            ext.setdefault("early_return_skipped", {})[k] = v
+        if pr:
+            name, src, what, a = pr[0]
+            report("failing-input", f"constructor with early return ({name}): {what}",
+                   {"source": src, "config": cfg.name, "ctor_arg_a": a, "problems": [(x[0], x[2], x[3]) for x in pr[:8]]},
+                   key="venom-ctor-early-return-deploys-empty" if cfg.venom else f"c13:early-return:{cfg.name}:{name}")
         pr, st = c13_ext.msize_case(ctx, cfg, rnd, exact_code, selector, compile_src)
         ext["msize_ctor_deployments"] += 1
         ext["legacy_guard_checked"] += st["guard_checked"]
@@ -442,7 +453,7 @@ def run(ctx):
         ctx.violation("correspondence-broken", "no constructor could be compiled", {"problems": problems[:5]})
 
     ctx.corr.update({
-        "evaluations": n_deploy + n_fail + n_bp + n_off + len(bp_cases) + ext["module_deployments"] + ext["msize_ctor_deployments"],
+        "evaluations": n_deploy + n_fail + n_bp + n_off + len(bp_cases) + ext["module_deployments"] + ext["msize_ctor_deployments"] + ext.get("early_return_deployments", 0),
         "distinct_nontrivial": n_deploy + n_fail + n_bp + ext["module_deployments"] + ext["msize_ctor_deployments"],
         "rule": "deployments of distinct generated (constructor source, configuration, argument values); failing "
                 "deployments counted separately; + offset-function grid cases and blueprint byte comparisons",
